@@ -19,7 +19,7 @@ def node_src(n, ind="") -> list[str]:
         sup = next((f[6:] for f in flags if f.startswith("super-")), "none")
         if "redefined" in flags:      # an earlier definition of the class with other members: the later one wins
             L += [f"{ind}class {name}:", f"{ind}    zattr: int = 1", "", f"{ind}    def zmeth(self):", f"{ind}        ...", ""]
-        bases = {"none": "", "one": "(BaseA)", "two": "(BaseA, BaseB)", "aliased": "(AliasA)", "subscripted": "(GenBase[int])", "userenum": "(BaseKind)"}[sup]
+        bases = {"none": "", "one": "(BaseA)", "two": "(BaseA, BaseB)", "aliased": "(AliasA)", "subscripted": "(GenBase[int])", "subscripted-aliased": "(GenAlias[int])", "userenum": "(BaseKind)"}[sup]
         L.append(f"{ind}class {name}{bases}:")
         body = []
         for c in n["ch"]:
@@ -71,6 +71,8 @@ def node_src(n, ind="") -> list[str]:
 
 def module_src(m) -> str:
     L = ["from enum import Enum, Flag, IntEnum, IntFlag, StrEnum", "import functools", "from typing import overload", f"from {PKG}.basemod import BaseA, BaseB, GenBase", f"from {PKG}.basemod import BaseA as AliasA", ""]
+    if any("super-subscripted-aliased" in c["flags"] for c in m["ch"]):      # another class called GenBase is imported first, the generic one under an alias
+        L = L[:3] + [f"from {PKG}.basemod2 import GenBase", f"from {PKG}.basemod import BaseA, BaseB", f"from {PKG}.basemod import GenBase as GenAlias", f"from {PKG}.basemod import BaseA as AliasA", ""]
     for c in m["ch"]:
         L += node_src(c)
     return "\n".join(L) + "\n"
@@ -126,11 +128,11 @@ def main(v: Verdict) -> None:
         m["pkg"] = f"{PKG}{k // CHUNK:02d}"
     jobs, pkgs = [], sorted({m["pkg"] for m in mods})
     for pk in pkgs:
-        files = {"__init__.py": "", "basemod.py": BASE}
+        files = {"__init__.py": "", "basemod.py": BASE, "basemod2.py": "class GenBase:\n    pass\n\n\ndef make_gen() -> GenBase:\n    return GenBase()\n"}
         for m in mods:
             if m["pkg"] != pk:
                 continue
-            src = module_src(m).replace(f"{PKG}.basemod", f"{pk}.basemod")
+            src = module_src(m).replace(f"{PKG}.basemod", f"{pk}.basemod")      # (basemod2 as well)
             if "initlike-filename" in m["flags"]:
                 files[f"{m['file']}.py"] = src
             elif "pkgfile" in m["flags"]:      # the declarations live in the package file itself
